@@ -87,6 +87,8 @@ type c17Case struct {
 	Schema   *hx.Schema `json:"schema"`
 	RootKind string     `json:"root_kind"` // reflection | resolver | any
 	InclDep  string     `json:"include_deprecated"`
+	// Then: further includeDeprecated settings asked one after the other on the SAME root
+	Then []string `json:"then,omitempty"`
 }
 
 type resolverRoot struct{}
@@ -203,16 +205,34 @@ func numEqText(a, b string) bool {
 
 func checkC17(c *c17Case) (ds []hx.Discrepancy, info map[string]bool) {
 	info = map[string]bool{}
+	sdl := c.Schema.SDL(hx.SDLOpts{})
+	root := newRootOfKind(c.RootKind)
+	if err := root.ParseString(sdl); err != nil {
+		return []hx.Discrepancy{{Kind: "setup", Detail: fmt.Sprintf("schema rejected: %v\n%s", err, sdl)}}, info
+	}
+	for i, inc := range append([]string{c.InclDep}, c.Then...) {
+		one := *c
+		one.InclDep = inc
+		d2 := checkC17On(root, &one, sdl, info)
+		if i > 0 {
+			info["follow-up-request-on-same-root"] = true
+			for j := range d2 {
+				d2[j].Detail = fmt.Sprintf("(request %d on the same root, after includeDeprecated=%v) ", i+1, append([]string{c.InclDep}, c.Then...)[:i]) + d2[j].Detail
+			}
+		}
+		ds = append(ds, d2...)
+		if len(ds) > 0 {
+			break
+		}
+	}
+	return
+}
+
+func checkC17On(root *ggql.Root, c *c17Case, sdl string, info map[string]bool) (ds []hx.Discrepancy) {
 	add := func(kind, sig, format string, args ...interface{}) {
 		ds = append(ds, hx.Discrepancy{Kind: kind, Sig: sig, Detail: fmt.Sprintf(format, args...)})
 	}
 	s := c.Schema
-	sdl := s.SDL(hx.SDLOpts{})
-	root := newRootOfKind(c.RootKind)
-	if err := root.ParseString(sdl); err != nil {
-		add("setup", "", "schema rejected: %v\n%s", err, sdl)
-		return
-	}
 	incl := false
 	q := c17Query
 	var vars map[string]interface{}
@@ -617,8 +637,9 @@ func TestC17(t *testing.T) {
 	rapid.Check(t, func(rt *rapid.T) {
 		s := GenFull(rt, Opts{Descs: true, Directives: true, Deprecated: true})
 		inc := rapid.SampledFrom([]string{"true", "false", "absent", "var-true", "var-false"}).Draw(rt, "includeDeprecated")
+		then := rapid.SliceOfN(rapid.SampledFrom([]string{"true", "false", "absent", "var-true", "var-false"}), 0, 2).Draw(rt, "then")
 		for _, rk := range []string{"reflection", "resolver", "any"} {
-			one(rt.Fatalf, &c17Case{Schema: s, RootKind: rk, InclDep: inc})
+			one(rt.Fatalf, &c17Case{Schema: s, RootKind: rk, InclDep: inc, Then: then})
 		}
 	})
 }
